@@ -14,24 +14,24 @@ from mc.runner import Stats
 ID = "C56"
 LEVEL = "exploration"
 TECHNIQUE = "exhaustive product of constructed format fields and deterministic values, three-way differential"
-RULE = ("format = literal + field (+ literal + field (+ field)); field = lookup path (14 shapes over attribute, index, "
+RULE = ("format = literal + field (+ literal + field (+ field)); field = lookup path (18 shapes over attribute, index, "
         "key and call steps) x conversion {none,s,r,a} x format spec {none, empty, >6, *^7, 06.2f, nested >{w}}; "
         "second field = duplicate / other conversion / other spec / root / other key; leaf value from 22 deterministic "
         "values (text, numbers, containers, objects with distinct str/repr, custom __format__, LogLevel, Failure, "
-        "self-referential list).  In scope = reference evaluation succeeds and equals formatEvent(original).  "
+        "self-referential list).  In scope = reference evaluation succeeds.  "
         "non-trivial = in-scope case using a lookup step, call, conversion, non-empty spec or a repeated field")
 BOUNDS = {"quick": "all single-field formats x all leaves; two-field formats with 6 second-field variants x 2 literal "
                    "sets; three-field duplicates",
           "thorough": "two-field formats with the full cross of fields over a reduced leaf set in addition"}
 ASSUMPTIONS = [
     "values are deterministic and side-effect free; callables are pure",
-    "a case whose reference evaluation raises, or whose original formatting differs from the reference, is out of "
-    "scope (the statement is about events that format)",
+    "a case whose reference evaluation raises is out of scope (the statement is about events whose fields exist); "
+    "when formatEvent(original) itself differs from the reference the three real outputs are still compared",
     "the reference (getattr/getitem/call, str/repr/ascii, format()) is used only to scope cases and to recognise the "
     "shape of already staged defects; the verdict compares the three real outputs with each other",
 ]
-MIN = {"quick": {"evaluations": 80000, "nontrivial": 64000, "outcomes": 4},
-       "thorough": {"evaluations": 550000, "nontrivial": 118000, "outcomes": 4}}
+MIN = {"quick": {"evaluations": 105000, "nontrivial": 83000, "outcomes": 4},
+       "thorough": {"evaluations": 890000, "nontrivial": 154000, "outcomes": 4}}
 
 
 class Obj:
@@ -119,6 +119,10 @@ PATHS = [
     ((C,), (A, "b")),
     ((A, "b"), (C,), (A, "c")),
     ((C,), (I, 0)),
+    ((A, "b"), (I, 0), (A, "c"), (C,)),
+    ((K, "k"), (A, "b"), (C,)),
+    ((I, 0), (I, 0), (A, "b"), (C,)),
+    ((A, "b"), (K, "k"), (A, "c")),
 ]
 CONVS = [None, "s", "r", "a"]
 SPECS = [None, "", ">6", "*^7", "06.2f", ">{w}"]
@@ -227,14 +231,26 @@ def run_case(case):
     except Exception:
         return "out-of-scope:reference-raises", []
     orig = formatEvent(dict(ev))
-    if orig != ref:
-        return "out-of-scope:original-not-formattable-as-reference", []
+    # The event is in scope because its fields evaluate (reference).  If formatEvent(original) does not produce
+    # the reference text, the three real outputs are still compared with each other, but no failure is then
+    # attributed to an already staged defect (their shapes are defined relative to a correct original).
+    orig_ok = orig == ref
+    FALLBACK = ("Unable to format event", "MESSAGE LOST")
+    differs = "text-differs" if orig_ok else "text-differs-from-unformattable-original"
     fails = []
+
+    def same(got):
+        if got == ("text", orig):
+            return True
+        # two generic "unformattable" texts differ only in the repr of the event (log_flattened was added)
+        return got[0] == "text" and got[1].startswith(FALLBACK) and orig.startswith(FALLBACK)
 
     def known_shape(got):
         """Signature of an already staged defect whose predicted observable behaviour this is, or None."""
         if got == ("raises", "eventAsJSON:ValueError") and case.leaf == "self-referential-list":
-            return "eventAsJSON:raises:self-referential-container"
+            return "eventAsJSON:raises:self-referential-container"    # independent of the original's text
+        if not orig_ok:
+            return None
         if got[0] == "raises":
             exc = got[1].split(":")[-1]
             if call_before_last(case) and exc in ("KeyError", "AttributeError") and "eventFromJSON" not in got[1]:
@@ -242,7 +258,7 @@ def run_case(case):
             return None
         if any(conv == "a" for (_, _, conv, _) in case.fields) and got[1].startswith("Unable to format event"):
             return "flatten:conversion-a-unformattable-after-flattening"
-        if got[1] == ref_nospec:
+        if got[1] == ref_nospec and ref_nospec != ref:
             return "flatten:field-rendered-with-str-not-format-spec"
         return None
 
@@ -254,9 +270,9 @@ def run_case(case):
     except Exception as e:
         flat = ("raises", type(e).__name__)
     flat_known = None
-    if flat != ("text", orig):
+    if not same(flat):
         flat_known = known_shape(flat)
-        fails.append(("flatten", flat[0] if flat[0] == "raises" else "text-differs", flat_known,
+        fails.append(("flatten", flat[0] if flat[0] == "raises" else differs, flat_known,
                       "original %r, after flattenEvent %r" % (orig, flat[1])))
     # leg 2: JSON of the unflattened event; leg 3: JSON of the flattened event
     seen = []
@@ -272,15 +288,15 @@ def run_case(case):
                 got = ("text", formatEvent(eventFromJSON(text)))
             except Exception as e:
                 got = ("raises", "eventFromJSON:" + type(e).__name__)
-        if got == ("text", orig):
+        if same(got):
             continue
         k = known_shape(got)
-        if flat != ("text", orig) and (got == flat or (k is not None and k == flat_known)):
+        if not same(flat) and (got == flat or (k is not None and k == flat_known)):
             continue   # the same observable failure as the flatten leg: one defect, reported there
         if got in seen:
             continue   # same failure as the plain JSON leg
         seen.append(got)
-        fails.append((leg, "raises-" + got[1] if got[0] == "raises" else "text-differs", k,
+        fails.append((leg, "raises-" + got[1] if got[0] == "raises" else differs, k,
                       "original %r, after %s %r" % (orig, leg, got[1])))
     return "in-scope", fails
 
